@@ -664,3 +664,17 @@ impl Rasterizer {
         self.bounds_left = dot2_to_int(self.width);
     }
 }
+
+#[cfg(raqote_verif)]
+impl Rasterizer {
+    /// True when no state from an earlier path remains: every edge bucket is
+    /// empty, there are no active edges and the bounds are at their reset values.
+    pub fn verif_is_idle(&self) -> bool {
+        self.active_edges.is_none()
+            && self.edge_starts.iter().all(|e| e.is_none())
+            && self.bounds_bottom == 0
+            && self.bounds_right == 0
+            && self.bounds_top == dot2_to_int(self.height)
+            && self.bounds_left == dot2_to_int(self.width)
+    }
+}
